@@ -417,8 +417,11 @@ def part_nesting(ctx: Ctx) -> Result:
             def make_store(cls, connection_string):
                 return cls()
 
-        class SessCfg(Config):
+        from monkeytype.config import DefaultConfig
+
+        class SessCfg(DefaultConfig):   # the shipped configuration with a store and a filter of the project's own
             def __init__(self):
+                super().__init__()
                 self.store = MemStore()
 
             def trace_store(self):
